@@ -1,9 +1,225 @@
-//! Drivers for the two side crates of C19 (shuttle schedules, Miri
-//! preemption). Filled in by `threads/` and `miri/`.
+//! Drivers for the two side crates of C19: `sim/threads` (shuttle: seeded
+//! random and PCT schedules, persisted failing schedules) and `sim/miri`
+//! (std threads under Miri with many seeds, preemption and data-race
+//! detection). Both are separate processes; their verdicts are turned into
+//! ordinary failures with replayable cases.
 
 use crate::core::*;
-use serde_json::Value;
+use crate::engine::{bin_for, verif_root};
+use serde::{Deserialize, Serialize};
+use serde_json::{json, Value};
+use std::process::{Command, Stdio};
 
-pub fn run_side_crates(_tier: Tier, _seed: u64, _obs: &mut Obs) -> Vec<(Value, Failure)> {
-    Vec::new()
+#[derive(Clone, Debug, Serialize, Deserialize)]
+pub enum SideCase {
+    /// replay a persisted shuttle schedule against the regenerated workload
+    Threads {
+        seed: u64,
+        batch: u64,
+        scheduler: String,
+        schedule_file: Option<String>,
+        message: String,
+    },
+    /// re-run the Miri scenario with these interpreter seeds
+    Miri { scenario_seed: u64, seeds: String, rate: String },
+}
+
+fn threads_bin() -> std::path::PathBuf {
+    bin_for(Profile::Release).with_file_name("rl2tp-dst-threads")
+}
+
+pub fn exec_side(case: &SideCase) -> Result<(), Failure> {
+    match case {
+        SideCase::Threads {
+            seed,
+            batch,
+            scheduler,
+            schedule_file,
+            message,
+        } => {
+            let out = match schedule_file {
+                Some(f) if std::path::Path::new(f).exists() => Command::new(threads_bin())
+                    .args(["replay", "--seed", &seed.to_string(), "--batch", &batch.to_string(), "--schedule", f])
+                    .stdin(Stdio::null())
+                    .stderr(Stdio::null())
+                    .output(),
+                // no schedule file: re-run the whole batch (same seeds, same schedules)
+                _ => Command::new(threads_bin())
+                    .args(["run", "--seed", &seed.to_string(), "--from", &batch.to_string(), "--batches", "1", "--iters", "250"])
+                    .stdin(Stdio::null())
+                    .stderr(Stdio::null())
+                    .output(),
+            };
+            match out {
+                Ok(o) => {
+                    let txt = String::from_utf8_lossy(&o.stdout);
+                    if txt.contains("violation reproduced") || txt.contains("\"failure\"") {
+                        Err(Failure::new(
+                            "C19",
+                            "same-result-on-every-thread-schedule",
+                            "threads",
+                            format!("batch {batch} scheduler {scheduler}: {}", message.lines().next().unwrap_or("")),
+                        ))
+                    } else {
+                        Ok(())
+                    }
+                }
+                Err(_) => Ok(()),
+            }
+        }
+        SideCase::Miri {
+            scenario_seed,
+            seeds,
+            rate,
+        } => match run_miri(*scenario_seed, seeds, rate) {
+            MiriOutcome::Violation(d) => Err(Failure::new("C19", "miri-threads", "miri", d)),
+            _ => Ok(()),
+        },
+    }
+}
+
+enum MiriOutcome {
+    Ok(u64),
+    Violation(String),
+    Unavailable(String),
+}
+
+fn run_miri(scenario_seed: u64, seeds: &str, rate: &str) -> MiriOutcome {
+    let dir = verif_root().join("sim/miri");
+    if !dir.exists() {
+        return MiriOutcome::Unavailable("sim/miri missing".into());
+    }
+    let out = Command::new("cargo")
+        .current_dir(&dir)
+        .env("MIRIFLAGS", format!("-Zmiri-many-seeds={seeds} -Zmiri-preemption-rate={rate}"))
+        .env("CARGO_NET_OFFLINE", "true")
+        .env_remove("RUSTFLAGS")
+        .args(["+nightly", "miri", "run", "--offline", "--", "threads", &scenario_seed.to_string()])
+        .stdin(Stdio::null())
+        .output();
+    let out = match out {
+        Ok(o) => o,
+        Err(e) => return MiriOutcome::Unavailable(format!("cannot start cargo miri: {e}")),
+    };
+    let so = String::from_utf8_lossy(&out.stdout).to_string();
+    let se = String::from_utf8_lossy(&out.stderr).to_string();
+    let oks = so.matches("threads scenario ok").count() as u64;
+    let all = format!("{so}\n{se}");
+    if all.contains("C19-MIRI") || all.contains("Undefined Behavior") || all.contains("Data race") || all.contains("data race") {
+        let line = all
+            .lines()
+            .find(|l| l.contains("C19-MIRI") || l.contains("Undefined Behavior") || l.to_lowercase().contains("data race"))
+            .unwrap_or("")
+            .trim()
+            .to_string();
+        return MiriOutcome::Violation(format!(
+            "Miri (scenario seed {scenario_seed}, interpreter seeds {seeds}, preemption rate {rate}): {line}"
+        ));
+    }
+    if oks == 0 {
+        let tail: Vec<&str> = se.lines().rev().take(4).collect();
+        return MiriOutcome::Unavailable(format!("no scenario completed; exit {:?}; {}", out.status.code(), tail.join(" | ")));
+    }
+    MiriOutcome::Ok(oks)
+}
+
+pub fn run_side_crates(tier: Tier, seed: u64, obs: &mut Obs) -> Vec<(Value, Failure)> {
+    let mut fails = Vec::new();
+    // ---- shuttle ----
+    let bin = threads_bin();
+    if bin.exists() {
+        let (batches, iters): (u64, u64) = tier.pick((32, 60), (640, 160));
+        let procs = 16u64;
+        let persist = verif_root().join("replays/shuttle");
+        let _ = std::fs::create_dir_all(&persist);
+        let mut children = Vec::new();
+        for p in 0..procs {
+            let from = batches * p / procs;
+            let to = batches * (p + 1) / procs;
+            if from >= to {
+                continue;
+            }
+            let c = Command::new(&bin)
+                .args([
+                    "run",
+                    "--seed",
+                    &seed.to_string(),
+                    "--from",
+                    &from.to_string(),
+                    "--batches",
+                    &(to - from).to_string(),
+                    "--iters",
+                    &iters.to_string(),
+                    "--persist",
+                    persist.to_str().unwrap_or("."),
+                ])
+                .stdin(Stdio::null())
+                .stdout(Stdio::piped())
+                .stderr(Stdio::null())
+                .spawn();
+            if let Ok(c) = c {
+                children.push(c);
+            }
+        }
+        for c in children {
+            if let Ok(o) = c.wait_with_output() {
+                for line in String::from_utf8_lossy(&o.stdout).lines() {
+                    let v: Value = match serde_json::from_str(line) {
+                        Ok(v) => v,
+                        Err(_) => continue,
+                    };
+                    if let Some(f) = v.get("failure") {
+                        if let Ok(f) = serde_json::from_value::<Failure>(f.clone()) {
+                            let msg = v["message"].as_str().unwrap_or("").to_string();
+                            // shuttle names the persisted schedule file in its panic message
+                            let file = msg
+                                .split_whitespace()
+                                .find(|w| w.contains("schedule") && w.contains(persist.to_str().unwrap_or("/")))
+                                .map(|w| w.trim_matches(|c: char| c == '\'' || c == '"' || c == ',' || c == '.').to_string());
+                            let case = SideCase::Threads {
+                                seed,
+                                batch: v["batch"].as_u64().unwrap_or(0),
+                                scheduler: v["scheduler"].as_str().unwrap_or("").to_string(),
+                                schedule_file: file,
+                                message: msg,
+                            };
+                            if fails.len() < 3 {
+                                fails.push((json!({"Side": case}), f));
+                            }
+                        }
+                    } else {
+                        let n = v["iterations"].as_u64().unwrap_or(0);
+                        obs.add(&format!("shuttle-iterations-{}", v["scheduler"].as_str().unwrap_or("?")), n);
+                        obs.add(&format!("shuttle-batches-with-{}-threads", v["threads"].as_u64().unwrap_or(0)), 1);
+                        obs.evaluations += n;
+                    }
+                }
+            }
+        }
+    } else {
+        obs.count("note:shuttle-binary-missing");
+    }
+    // ---- Miri ----
+    let (seeds, rate) = tier.pick(("0..4", "0.1"), ("0..64", "0.1"));
+    let scenario_seed = seed % 1000;
+    match run_miri(scenario_seed, seeds, rate) {
+        MiriOutcome::Ok(n) => {
+            obs.add("miri-interleavings-completed", n);
+            obs.evaluations += n * 28;
+        }
+        MiriOutcome::Violation(d) => {
+            let case = SideCase::Miri {
+                scenario_seed,
+                seeds: seeds.to_string(),
+                rate: rate.to_string(),
+            };
+            fails.push((json!({"Side": case}), Failure::new("C19", "miri-threads", "miri", d)));
+        }
+        MiriOutcome::Unavailable(why) => {
+            // not a property violation and not silently dropped either
+            obs.count("note:miri-unavailable");
+            println!("NOTE C19: Miri part skipped ({why})");
+        }
+    }
+    fails
 }
